@@ -11,7 +11,8 @@ META = dict(
               "idle stop, stop() from a handler, handler error with stop_on_handler_exceptions, external cancellation "
               "at 0 / 15 / 50 ms, stop() from another task at 5 / 15 / 50 ms (5 ms: a producer is still initialising), the same followed by a second stop() 10 ms later while the "
               "producers take 20 ms to finalise} x "
-              "handler duration in {0, 30 ms, 5 s} x handlers and jobs as coroutine functions / functools.partial objects; "
+              "handler duration in {0, 30 ms, 5 s} x handlers and jobs as coroutine functions / functools.partial objects x the application installing its own log record factory between creating "
+              "the dispatcher and run() (choice); "
               "max_concurrent symbolic in 1..3",
         thorough="adds 1 and 3 producers, max_concurrent up to 5"),
     stubs=["basana.core.dt.utc_now -> virtual clock", "VLoop", "logging disabled (the record factory is called "
